@@ -11,7 +11,8 @@ TAGS = ["IMPORTS", "INCLUDES", "PUBLIC", "X", "XY", "A_on_entry", "x", "Imports"
 # per case the tag names are drawn from one or two small FAMILIES of related names (prefixes of one another, case variants,
 # shared stems), so that "tag vanished but a related one appeared" happens often
 FAMILIES = [["X", "XY", "XYZ", "x"], ["IMPORTS", "Imports", "IMPORTS_2"], ["isReady", "IsReady", "IsReadyNow"],
-            ["A_on_entry", "A_on_exit", "AB_on_entry"], ["GuardAck", "GuardAckValid"], ["PUBLIC", "INCLUDES"]]
+            ["A_on_entry", "A_on_exit", "AB_on_entry"], ["GuardAck", "GuardAckValid"], ["PUBLIC", "INCLUDES"],
+            ["StateSent", "StateSet", "SaeSe", "Statesent"]]   # differ only by letters that occur in CleanUpLine's two-character patterns
 STYLES = [b"// {{{USER_%s}}}\n", b"    # {{{USER_%s}}}\n", b"/* {{{USER_%s */\n", b"{{{USER_%s\n", b"\t/// {{{USER_%s}}}\n"]
 
 
